@@ -326,7 +326,8 @@ class XMLResource(XMLResourceLoader):
         elif is_remote_url(url):
             raise XMLResourceBlocked(f"block access to remote resource {url}")
         elif self._allow == 'sandbox' and self._base_url is not None:
-            if not url.startswith(normalize_url(self._base_url)):
+            base_url = normalize_url(self._base_url)
+            if url != base_url and not url.startswith(base_url.rstrip('/') + '/'):
                 raise XMLResourceBlocked(f"block access to out of sandbox file {url}")
 
     def parse(self, source: XMLSourceType, lazy: LazyType = False) -> None:
